@@ -17,7 +17,10 @@ HDR = ('From VZ Require Import Base.Prelude Model.Exptr Gen.Exptrs.\nFrom Coq Re
 
 
 def gQ(x):
-  fr = Fraction(float(x))
+  x = float(x)
+  if x != x or x in (float('inf'), float('-inf')):
+    return '(-987654321 # 1)%%Q' # a non-finite observation: printed as a value no model output equals
+  fr = Fraction(x)
   return '(%d # %d)%%Q' % (fr.numerator, fr.denominator)
 
 
